@@ -15,6 +15,8 @@ PREDS = [('any()', False), ('all()', True), ('feature = "on"', True), ('feature 
          ('not(feature = "on")', False), ('not(any())', True), ('all(feature = "on", not(feature = "off"))', True),
          ('any(feature = "off", any())', False)]
 NCOMP = 6
+# component type names, some of them unusual but legal (leading/trailing/double underscores, acronyms, digits)
+CNAME = ['C0', 'C1_', 'Entity_', 'Comp__3', 'HTTPServer4', 'Option_']
 
 
 def gen_pair(rng, idx):
@@ -62,26 +64,27 @@ def gen_pair(rng, idx):
         fixed.append((n, ac, i, cs2))
     archs = fixed
 
+    order = {}
+    for n, ac, i, cs in archs:
+        order[n] = rng.random() < 0.5
+        for c, cc, ci in cs:
+            order[(n, c)] = rng.random() < 0.5
+
     def decl(deco):
         lines = []
         for n, ac, i, cs in archs:
             if not deco and ac is not None and not ac[1]:
                 continue
-            attrs = ''
-            if deco and ac is not None:
-                attrs += '#[cfg(%s)] ' % ac[0]
-            if i is not None:
-                attrs += '#[archetype_id(%d)] ' % i
+            ca = '#[cfg(%s)] ' % ac[0] if (deco and ac is not None) else ''
+            ia = '#[archetype_id(%d)] ' % i if i is not None else ''
+            attrs = (ia + ca) if order[n] else (ca + ia)
             parts = []
             for c, cc, ci in cs:
                 if not deco and cc is not None and not cc[1]:
                     continue
-                p = ''
-                if deco and cc is not None:
-                    p += '#[cfg(%s)] ' % cc[0]
-                if ci is not None:
-                    p += '#[component_id(%d)] ' % ci
-                parts.append(p + 'C%d' % c)
+                cp = '#[cfg(%s)] ' % cc[0] if (deco and cc is not None) else ''
+                ip = '#[component_id(%d)] ' % ci if ci is not None else ''
+                parts.append(((ip + cp) if order[(n, c)] else (cp + ip)) + CNAME[c])
             lines.append('        %secs_archetype!(%s, %s);' % (attrs, n, ', '.join(parts)))
         return '\n'.join(lines)
 
@@ -112,25 +115,25 @@ def gen_pair(rng, idx):
         for n, cs in enabled:
             L.append('        out.push(("id %s".to_string(), <%s as Archetype>::ARCHETYPE_ID as i64));' % (n, n))
             for c in cs:
-                L.append('        out.push(("cid %s C%d".to_string(), ecs_component_id!(C%d, %s) as i64));' % (n, c, c, n))
-            L.append('        for k in 0..%d { world.create::<%s>((%s,)); }' % (2 + len(cs), n, ', '.join('C%d(k)' % c for c in cs)))
+                L.append('        out.push(("cid %s C%d".to_string(), ecs_component_id!(%s, %s) as i64));' % (n, c, CNAME[c], n))
+            L.append('        for k in 0..%d { world.create::<%s>((%s,)); }' % (2 + len(cs), n, ', '.join('%s(k)' % CNAME[c] for c in cs)))
             for c in cs:
                 # the form used inside a query body
-                L.append('        { let mut id = -1i64; ecs_iter!(world, |_e: &Entity<%s>, _x: &C%d| { id = ecs_component_id!(C%d) as i64; }); out.push(("qcid %s C%d".to_string(), id)); }' % (n, c, c, n, c))
+                L.append('        { let mut id = -1i64; ecs_iter!(world, |_e: &Entity<%s>, _x: &%s| { id = ecs_component_id!(%s) as i64; }); out.push(("qcid %s C%d".to_string(), id)); }' % (n, CNAME[c], CNAME[c], n, c))
         for c in range(NCOMP):
             if any(c in cs for _, cs in enabled):
-                L.append('        { let mut n = 0i64; ecs_iter!(world, |_x: &C%d| { n += 1; }); out.push(("iter C%d".to_string(), n)); }' % (c, c))
+                L.append('        { let mut n = 0i64; ecs_iter!(world, |_x: &%s| { n += 1; }); out.push(("iter C%d".to_string(), n)); }' % (CNAME[c], c))
         # a query with a cfg-decorated parameter (decorated side) / its erasure (plain side)
         if deco:
-            L.append('        { let mut n = 0i64; ecs_iter!(world, |_x: &C%d, #[cfg(%s)] _y: &C%d| { n += 1; }); out.push(("cfgquery".to_string(), n)); }'
-                     % (qcomp, qp[0], other))
+            L.append('        { let mut n = 0i64; ecs_iter!(world, |_x: &%s, #[cfg(%s)] _y: &%s| { n += 1; }); out.push(("cfgquery".to_string(), n)); }'
+                     % (CNAME[qcomp], qp[0], CNAME[other]))
         elif qp[1]:
             if any(qcomp in cs and other in cs for _, cs in enabled) and qcomp != other:
-                L.append('        { let mut n = 0i64; ecs_iter!(world, |_x: &C%d, _y: &C%d| { n += 1; }); out.push(("cfgquery".to_string(), n)); }' % (qcomp, other))
+                L.append('        { let mut n = 0i64; ecs_iter!(world, |_x: &%s, _y: &%s| { n += 1; }); out.push(("cfgquery".to_string(), n)); }' % (CNAME[qcomp], CNAME[other]))
             else:
                 return None     # the erased query would not compile (no match / same component twice): skip the query for this pair
         else:
-            L.append('        { let mut n = 0i64; ecs_iter!(world, |_x: &C%d| { n += 1; }); out.push(("cfgquery".to_string(), n)); }' % qcomp)
+            L.append('        { let mut n = 0i64; ecs_iter!(world, |_x: &%s| { n += 1; }); out.push(("cfgquery".to_string(), n)); }' % CNAME[qcomp])
         L += ['        out', '    }']
         return '\n'.join(L)
 
@@ -138,8 +141,8 @@ def gen_pair(rng, idx):
     if rp is None:
         return None
     def prog(deco):
-        src = ['#![allow(unused, dead_code)]', 'use gecs::prelude::*;']
-        src += ['pub struct C%d(pub u32);' % c for c in range(NCOMP)]
+        src = ['#![allow(unused, dead_code, non_camel_case_types)]', 'use gecs::prelude::*;']
+        src += ['pub struct %s(pub u32);' % CNAME[c] for c in range(NCOMP)]
         src += ['mod w {', '    use super::*;', '    ecs_world! {', decl(deco), '    }', report(deco) if deco else rp, '}']
         src += ['fn main() {', '    for (k, v) in w::report().iter() { println!("{} {}", k, v); }', '}']
         return '\n'.join(src) + '\n'
@@ -191,7 +194,12 @@ def run(repo, cache, seed, n=10):
         try:
             okp, outp = build_run(name + '_plain')
             if not okp:
-                skipped += 1       # the generator produced an invalid erased declaration: no information
+                if 'attribute id' in outp:
+                    skipped += 1       # the generator produced colliding / overflowing ids: rejected on both sides, no information
+                    continue
+                out['pairs'] += 1
+                out['violations'].append(dict(pair=name, what='a legal attribute-free declaration with its queries does not compile: ' + outp, description=desc, program=sp, erased=sp))
+                out['rule_violations'].append(dict(pair=name, what='a legal attribute-free declaration with its queries does not compile: ' + outp, description=desc, program=sp))
                 continue
             okd, outd = build_run(name + '_deco')
         except RuntimeError as e:
